@@ -290,7 +290,11 @@ pub fn gen_mapping(rng: &mut Rng, cfg: &Cfg) -> GenMapping {
             let k = rng.pick(ORIG_CLASSES).to_string();
             lines.push(format!("{} -> {}:", k, k));
             for _ in 0..rng.range(1, 3) {
-                let m = rng.pick(ORIG_METHODS);
+                // (a dotted "method" would be parsed as class.method, leaving a dotted obfuscated name)
+                let mut m = rng.pick(ORIG_METHODS);
+                if m.contains('.') {
+                    m = "keep";
+                }
                 let a = small_line(rng, false);
                 let b = a.saturating_add(rng.below(6) as u64);
                 match rng.below(4) {
